@@ -184,10 +184,99 @@ def c13_4(ctx):
     return out
 
 
+def c13_5(ctx):
+    """MultiSigTapScript: every key is in the script.  With two or more keys (and any k >= 1) every path through the
+    constructor runs the loop that appends `<key> CHECKSIGADD` for the remaining keys and the `<k> NUMEQUAL` tail; the
+    decision may depend on the number of keys only (a 1-of-n leaf still lists n keys)."""
+    from sa.interval import ISet
+    from sa.ranges import Ranges
+
+    spec = "taproot:MultiSigTapScript.__init__"
+    mod, fn = rl.get(ctx, spec)
+    ps = param_names(fn)
+    pts, k = ps[1], ps[2]
+    cfg = cfg_of(fn)
+    loops = [lp for lp in cfg.loops.values() if isinstance(lp.stmt, ast.For) and any(isinstance(x, ast.Constant) and x.value == 0xBA for x in ast.walk(lp.stmt))]
+    if not loops:
+        raise AnalysisError("MultiSigTapScript.__init__: CHECKSIGADD loop not found")
+    lp = loops[0]
+    track = {"len(%s)" % pts: ISet.range(2, None), k: ISet.range(1, None)}
+    for st in ast.walk(fn):
+        # aliases of the key list (xonlys = sorted([...for p in points])) have the same length
+        if isinstance(st, ast.Assign) and isinstance(st.targets[0], ast.Name) and pts in {x.id for x in ast.walk(st.value) if isinstance(x, ast.Name)} \
+                and isinstance(st.value, ast.Call) and call_name(st.value) in ("sorted", "list"):
+            track["len(%s)" % st.targets[0].id] = ISet.range(2, None)
+    rg = Ranges(ctx.repo, mod, fn, track, types=track)
+    if rg.uninterpreted:
+        n0, why = rg.uninterpreted[0]
+        return [ctx.err(spec, "test on the number of keys / k not understood: %s" % why, getattr(n0, "ast", None), mod)]
+    # feasible edges under the domain; can the normal exit be reached without entering the loop?
+    removed = set()
+    for (a, b, label), st_ in rg.edge_state.items():
+        if st_ is None or st_.bottom():
+            removed.add((a, b, label))
+    head = lp.head
+    exits = [n.id for n in cfg.nodes if n.kind in ("exit_normal", "exit", "return")]
+    forn = [n.id for n in cfg.nodes if n.kind == "for" and n.stmt is lp.stmt] or [head]
+    reach = cfg.reach([cfg.entry], removed=frozenset(removed), blocked=frozenset(forn))
+    bypass = [e for e in exits if e in reach]
+    if not bypass:
+        return [ctx.ok(spec, "with >= 2 keys and any k >= 1 every path appends all remaining keys (CHECKSIGADD loop) before the constructor returns", lp.stmt, mod, key="all-keys")]
+    # which test lets the path skip the loop
+    path = cfg.path([cfg.entry], bypass, removed=frozenset(removed), blocked=frozenset(forn))
+    tests = [cfg.nodes[i] for i, _ in (path or []) if cfg.nodes[i].kind == "test"]
+    culprit = next((t for t in reversed(tests) if k in {x.id for x in ast.walk(t.ast) if isinstance(x, ast.Name)}), tests[-1] if tests else None)
+    return [ctx.bad(spec, "with two or more keys the constructor can finish without appending the remaining keys: `%s` skips the CHECKSIGADD loop (e.g. k = 1, n = 2 gives "
+                          "`<key0> CHECKSIG`, a 1-of-1 script that drops the other keys)" % (ast.unparse(culprit.ast) if culprit else "?"), culprit.ast if culprit else lp.stmt, mod,
+                    key="all-keys")]
+
+
+def c13_6(ctx):
+    """get_signature, tweaked case: the aggregate s and the tweak term are negated exactly when the *tweaked* output key
+    has odd Y (BIP341 signing with the negated secret): the arm `(-s_sum - e·t) mod n` is selected by the parity of
+    point.tweaked_key(merkle_root) and by nothing else."""
+    spec = "taproot:MuSigTapScript.get_signature"
+    mod, fn = rl.get(ctx, spec)
+    cfg = cfg_of(fn)
+    out = []
+    arms = []
+    for n in cfg.tests():
+        neg = pos = None
+        for b, l in cfg.succ[n.id]:
+            a = cfg.nodes[b].ast
+            if isinstance(a, ast.Assign) and isinstance(a.value, ast.BinOp) and isinstance(a.value.op, ast.Mod):
+                inner = ast.unparse(a.value.left)
+                if inner.startswith("-") and " - " in inner:
+                    neg = l
+                elif " + " in inner and not inner.startswith("-"):
+                    pos = l
+        if neg is not None and pos is not None:
+            arms.append((n, neg))
+    if not arms:
+        raise AnalysisError("get_signature: the negated / plain arms of the tweaked signature not found")
+    for n, neg_label in arms:
+        t = n.ast
+        ex = expand(fn, n.id, t, depth=4)
+        txt = ast.unparse(ex)
+        want = "self.point.tweaked_key(merkle_root).parity"
+        if txt == want and neg_label is True:
+            out.append(ctx.ok(spec, "s and the tweak term are negated exactly when the tweaked output key has odd Y", t, mod, key="tweak-parity"))
+        elif txt in ("%s == 1" % want, "%s != 0" % want) and neg_label is True or txt in ("%s == 0" % want, "%s != 1" % want) and neg_label is False:
+            out.append(ctx.ok(spec, "s and the tweak term are negated exactly when the tweaked output key has odd Y", t, mod, key="tweak-parity"))
+        elif "parity" in txt:
+            out.append(ctx.bad(spec, "the negated arm is selected by `%s` instead of the parity of the tweaked output key alone: whenever the untweaked aggregate has odd Y "
+                                     "the combined signature is computed with the wrong sign and does not verify" % ast.unparse(t), t, mod, key="tweak-parity"))
+        else:
+            out.append(ctx.err(spec, "condition of the negated arm not recognised: `%s`" % txt, t, mod))
+    return out
+
+
 OBLIGATIONS = [
     ("C13.1", "ORDER", c13_1),
     ("C13.2", "GUARD", c13_2),
     ("C13.3", "COUNT", c13_3),
     ("C13.4", "LAYOUT", c13_4),
+    ("C13.5", "RANGE must-pass", c13_5),
+    ("C13.6", "GUARD polarity", c13_6),
 ]
 FLOORS = {"C13.1": 7, "C13.2": 2, "C13.3": 7, "C13.4": 5}
